@@ -1,31 +1,71 @@
-//! Runs world scenarios for the behavioural properties (C01, C05, C09, ...): one shard of the
+//! Runs world scenarios for the behavioural properties (C01, C05, C09, C10 ...): one shard of the
 //! run indices, all monitors riding along, violations of the requested property reported.
+//!   mode=random (default)  seeded scenario runs
+//!   mode=crash             crash-point enumeration: each base run is first executed without a
+//!                          crash to count the victim's durable writes W, then re-executed once per
+//!                          selected write index n with the victim dying at its n-th write
 use vcore::Args;
 use world::monitors::c01_commit::CommitMonitor;
 use world::monitors::c05_revoke::RevokeMonitor;
 use world::monitors::c09_order::OrderMonitor;
+use world::monitors::c10_restart::RestartMonitor;
 use world::monitors::Monitor;
-use world::run::{run_one, Profile};
+use world::run::{run_one, Crash, Profile};
 
 fn main() {
 	let _ = world::force_link();
 	vcore::install_quiet_panic_hook();
 	let args = Args::parse();
 	let mut rep = args.report();
-	let prof = Profile::for_prop(&args.prop, args.thorough());
-	let mut prof = prof;
+	let mut prof = Profile::for_prop(&args.prop, args.thorough());
 	if let Some(s) = args.kv.get("steps") {
 		prof.steps = s.parse().unwrap();
 	}
 	let runs = args.num("runs", 160, 8000);
-	let make = || -> Vec<Box<dyn Monitor>> { vec![Box::new(CommitMonitor::new()), Box::new(RevokeMonitor::new()), Box::new(OrderMonitor::new())] };
+	let make = || -> Vec<Box<dyn Monitor>> { vec![Box::new(CommitMonitor::new()), Box::new(RevokeMonitor::new()), Box::new(OrderMonitor::new()), Box::new(RestartMonitor::new())] };
 	let only: Option<u64> = args.kv.get("only_run").map(|s| s.parse().unwrap());
+	let mode = args.kv.get("mode").cloned().unwrap_or_else(|| "random".to_string());
 	let mut i = args.shard;
 	while i < runs {
 		if only.map(|o| o == i).unwrap_or(true) {
-			run_one(&args, &prof, i, &mut rep, &make);
+			if mode == "crash" {
+				crash_enumeration(&args, &prof, i, &mut rep, &make);
+			} else {
+				run_one(&args, &prof, i, &mut rep, &make, None);
+			}
 		}
 		i += args.nshards.max(1);
 	}
 	rep.write_to(&args.out);
+}
+
+fn crash_enumeration(args: &Args, prof: &Profile, run: u64, rep: &mut vcore::Report, make: &(dyn Fn() -> Vec<Box<dyn Monitor>> + Sync)) {
+	let victim = (run % prof.nodes as u64) as usize;
+	// baseline (also judged) to learn how many durable writes the victim performs
+	let base = run_one(args, prof, run, rep, make, None);
+	let w = base.writes.get(victim).cloned().unwrap_or(0);
+	rep.count("crash_base_scenarios");
+	rep.add("crash_points_available", w);
+	if w == 0 {
+		return;
+	}
+	let max_points = args.num("points", 10, 400);
+	let only_point: Option<u64> = args.kv.get("only_point").map(|s| s.parse().unwrap());
+	let mut rng = vcore::Rng::derive(args.seed, run, 0xC4A5);
+	let points: Vec<u64> = if w <= max_points { (0..w).collect() } else { (0..max_points).map(|k| (k * w / max_points + rng.below(w / max_points)).min(w - 1)).collect() };
+	if w <= max_points {
+		rep.count("crash_scenarios_fully_enumerated");
+	}
+	for n in points {
+		if only_point.map(|p| p != n).unwrap_or(false) {
+			continue;
+		}
+		let second = if rng.chance(1, 4) { Some(rng.below(6)) } else { None };
+		let st = run_one(args, prof, run, rep, make, Some(Crash { victim, at_write: n, second_after: second }));
+		rep.count("crash_points_executed");
+		if st.crashed {
+			rep.count("crash_points_reached");
+		}
+		rep.distinct(vcore::Fnv::new().u64(run).u64(n).u64(victim as u64).get());
+	}
 }
